@@ -355,6 +355,19 @@ def run_fs(desc):
                             if a2 != a:
                                 out.violation(dict(case, problem='iglob differs from glob'), bucket=('iglob',))
                                 return
+                            # the same walk with the root given as a directory descriptor
+                            fd_ = os.open(root, os.O_RDONLY)
+                            try:
+                                da = G.glob(texts, flags=fl, dir_fd=fd_)
+                                db = G.glob(enc(texts), flags=fl, dir_fd=fd_)
+                            finally:
+                                os.close(fd_)
+                            out.evaluations += 1
+                            if [os.fsencode(x) for x in da] != db:
+                                d = sorted(set(os.fsencode(x) for x in da) ^ set(db))[0].decode('latin-1')
+                                out.violation(dict(case, api='glob(dir_fd)', name=d, problem='bytes result differs from str result: glob with dir_fd'),
+                                              size=len(str(texts)) * 10, bucket=('fs', 'dir_fd'))
+                                return
                             # the matcher that looks at the file system: every entry, with and without a trailing separator
                             ma = G.globfilter(cands, texts, flags=fl | G.REALPATH, root_dir=root)
                             mb = G.globfilter([os.fsencode(c) for c in cands], enc(texts), flags=fl | G.REALPATH, root_dir=broot)
